@@ -41,6 +41,22 @@ def havoc_value(E, v, name, st, typ=None):
         h.kind = 'acc'
         h.items = [cnt, E.fresh_bytes(name + '_last'), E.fresh_bytes(name + '_joined')]
         return v
+    if typ == 'pacc':
+        # PREPEND accumulator abstraction of a list of byte strings built with insert(0, x): the list object is turned IN PLACE into
+        # (count, first, rest), all unknown, standing for the list [first] + <items whose concatenation is rest> when count >= 1.
+        # Exact for insert(0, x) / [0] read and write / len / truth / b''.join; every other operation is Unsupported.
+        if not (isinstance(v, Ref) and st.heap[v.oid].kind in ('list', 'pacc')):
+            raise Unsupported('pacc abstraction of %s: not a list' % name)
+        h = st.heap[v.oid]
+        if h.kind == 'list' and not all(is_byteslike(x) for x in h.items):
+            raise Unsupported('pacc abstraction of %s: items are not byte strings' % name)
+        cnt = E.fresh_int(name + '_count')
+        first, rest = E.fresh_bytes(name + '_first'), E.fresh_bytes(name + '_rest')
+        st.assume(cnt.t >= 0)
+        st.assume(z3.Implies(cnt.t == 0, z3.And(z3.Length(first.t) == 0, z3.Length(rest.t) == 0)))    # the empty list joins to b''
+        h.kind = 'pacc'
+        h.items = [cnt, first, rest]
+        return v
     if isinstance(typ, str) and typ.startswith('alist'):
         # counted-list abstraction: the list object is turned IN PLACE into (count) -- exact for append and len, everything else
         # Unsupported.  What is known about the ELEMENTS is stated per append: options['on_append'][<hook>] = [clauses over `item`
@@ -283,6 +299,8 @@ def _cut_loop(E, n, st, spec, kind, iterable=None):
             if gk.endswith('cursor'):
                 st.assume(ng.t >= zint(gv))       # cursors only move forward
             st.ghost[gk] = ng
+    if spec.get('forget'):
+        _forget_dead(E, st)
     heap_writes_before = len(st.writes)
     oid_floor = st.next_oid
 
@@ -291,6 +309,11 @@ def _cut_loop(E, n, st, spec, kind, iterable=None):
         st.assume(_as_z3(eval_clause(E, inv, st)))
     for a in spec.get('assume_types', []):
         st.assume(_as_z3(eval_clause(E, a, st)))
+    # lemma calls at the loop head (arbitrary iteration, after the invariant): only registered, separately proved spec lemmas
+    linst = spec.get('instances', {})
+    if linst.get('head'):
+        from .contracts import assume_instance_list
+        assume_instance_list(E, st, linst['head'])
 
     # 4. guard
     if kind == 'while':
@@ -329,6 +352,9 @@ def _cut_loop(E, n, st, spec, kind, iterable=None):
                     _check_unhavocked_writes(E, s3, heap_writes_before, written_fields, explicit, where, oid_floor)
                     if kind == 'for':
                         s3.frame.env[idx_name] = mk_int(k.t + 1)
+                    if linst.get('body_end'):
+                        from .contracts import assume_instance_list
+                        assume_instance_list(E, s3, linst['body_end'])
                     for inv in invs:
                         g = eval_clause(E, inv, s3)
                         E.oblige(s3, g, 'loop_inv_preserved', where, {'clause': inv})
@@ -342,6 +368,72 @@ def _cut_loop(E, n, st, spec, kind, iterable=None):
                 else:
                     outs.append(o)
     return outs
+
+
+def _consts0(t, cache):
+    """names of the uninterpreted constants (arity 0) of a z3 term"""
+    key = t.get_id()
+    if key in cache:
+        return cache[key]
+    acc, seen, todo = set(), set(), [t]
+    while todo:
+        x = todo.pop()
+        if x.get_id() in seen:
+            continue
+        seen.add(x.get_id())
+        if z3.is_app(x):
+            if x.num_args() == 0 and x.decl().kind() == z3.Z3_OP_UNINTERPRETED:
+                acc.add(x.decl().name())
+            todo.extend(x.children())
+        elif z3.is_quantifier(x):
+            todo.append(x.body())
+    cache[key] = acc
+    return acc
+
+
+def _forget_dead(E, st):
+    """opt-in (loop spec `forget: True`), the classical loop rule: at the cut, hypotheses that mention a symbol no live value
+    refers to any more (pre-loop values of the variables just havocked, consumed temporaries) are dropped -- what the loop needs
+    to know about the past is what its invariant says.  Dropping hypotheses is sound; it keeps the queries of long functions
+    with several loops small.  Live = reachable from any frame, the heap, the ghost state or the entry snapshot."""
+    cache = E.__dict__.setdefault('_consts0_cache', {})
+    live = set()
+
+    def walk(v, depth=0):
+        if depth > 6:
+            return
+        if isinstance(v, SV):
+            live.update(_consts0(v.t, cache))
+        elif isinstance(v, LazyUnion):
+            live.update(_consts0(v.sel, cache))
+            for _n, x in v.alts:
+                walk(x, depth + 1)
+        elif isinstance(v, (tuple, list)):
+            for x in v:
+                walk(x, depth + 1)
+        elif isinstance(v, dict):
+            for x in v.values():
+                walk(x, depth + 1)
+        elif z3.is_expr(v) if not isinstance(v, (int, str, bytes, bool, type(None), Ref)) else False:
+            live.update(_consts0(v, cache))
+
+    for s0 in (st, st.snap):
+        if s0 is None:
+            continue
+        for fr in s0.frames:
+            walk(list(fr.env.values()))
+        for h in s0.heap.values():
+            walk(list(h.fields.values()))
+            walk(h.items)
+        walk(list(s0.ghost.values()))
+    keep = []
+    for c in st.pc:
+        cs = _consts0(c, cache)
+        if cs - live:
+            st.facts.discard(c.get_id())
+        else:
+            keep.append(c)
+    st.pc = keep
 
 
 def _ev_spec(E, st, base, sink):
@@ -395,9 +487,9 @@ def _check_unhavocked_writes(E, st, start, written_fields, explicit, where, oid_
             if len(r) == 1 and isinstance(r[0][1], Ref):
                 allowed.add((r[0][1].oid, fld))
                 tgt = st.heap[r[0][1].oid].fields.get(fld)
-                if isinstance(tgt, Ref) and tgt.oid in st.heap and st.heap[tgt.oid].kind in ('acc', 'alist'):
+                if isinstance(tgt, Ref) and tgt.oid in st.heap and st.heap[tgt.oid].kind in ('acc', 'alist', 'pacc'):
                     allowed.add((tgt.oid, '<items>'))       # the list behind the havocked field was abstracted before the cut
-        elif isinstance(env.get(h), Ref) and st.heap[env[h].oid].kind in ('acc', 'alist'):
+        elif isinstance(env.get(h), Ref) and st.heap[env[h].oid].kind in ('acc', 'alist', 'pacc'):
             allowed.add((env[h].oid, '<items>'))       # havocked as an accumulator before the invariant was assumed
     for (oid, fld) in st.writes[start:]:
         if (oid, fld) not in allowed and 0 <= oid < oid_floor:          # oid -1 = lock events of `with` (no heap location)
